@@ -1161,3 +1161,36 @@ theorem steady_profile (P : Prob ℝ) (T : GField ℝ) (Φ : ℝ)
 
 end
 end SrModel.Thermal
+
+namespace SrModel.Thermal
+open Finset
+noncomputable section
+
+/-- **steady solid: what enters through the outer faces leaves through the inner faces**
+(no source; periodic and axial faces carry nothing) -/
+theorem steady_face_balance (P : Prob ℝ) (T : GField ℝ) (hst : P.steady = true)
+    (hsol : P.Solves T) (hcp : P.CPeriodic) (hr : ∀ i, P.isRealI i = true → P.rr i ≠ 0)
+    (hdr : P.dr ≠ 0) (hsrc : ∀ i j k, P.qc i j k * P.src i j k = 0) :
+    ∑ j ∈ P.setJ, ∑ k ∈ P.setK, P.outerFace T j k = ∑ j ∈ P.setJ, ∑ k ∈ P.setK, P.innerFace T j k := by
+  have hA := sum_applyA P T hsol hcp hr
+  obtain ⟨hreal, _, _, _, _⟩ := hsol
+  have hz : ∑ i ∈ P.setI, ∑ j ∈ P.setJ, ∑ k ∈ P.setK, P.rr i * P.applyA T i j k = 0 := by
+    apply Finset.sum_eq_zero; intro i hi
+    apply Finset.sum_eq_zero; intro j hj
+    apply Finset.sum_eq_zero; intro k hk
+    have := hreal i j k ((mem_setI P i).1 hi) ((mem_setJ P j).1 hj) ((mem_setK P k).1 hk)
+    unfold Prob.lhsReal Prob.rhsReal at this
+    rw [hst] at this
+    simp only [if_true, hsrc] at this
+    have h0 : P.applyA T i j k = 0 := by linarith
+    rw [h0]; ring
+  rw [hz] at hA
+  have hd : P.dr * P.dr ≠ 0 := mul_ne_zero hdr hdr
+  have : ∑ j ∈ P.setJ, ∑ k ∈ P.setK, (P.outerFace T j k - P.innerFace T j k) = 0 := by
+    have := hA.symm
+    rwa [div_eq_zero_iff, or_iff_left hd] at this
+  simp only [Finset.sum_sub_distrib] at this
+  linarith
+
+end
+end SrModel.Thermal
